@@ -28,6 +28,15 @@ CHECKS.update({
  "C29": ("exploration", "property-based testing (rapidcheck) over generated operation lists x generated thread schedules on the real DisjointSet under a cooperative scheduler with a step-wise forest invariant, plus bounded-exhaustive schedule enumeration for all pairs of single operations",
          "Final partition, per-call linearizability windows of sameSet/findNode, step-wise acyclicity of parent links and termination hold on every explored interleaving (random + every schedule of all 2-thread single-operation pairs over 3-4 nodes up to a preemption bound).",
          "Sequentially consistent interleavings at hook granularity; the linearizability check uses the monotonicity of the partition (windows), not a full linearization search.", "4/C29"),
+ "C07": ("exploration", "property-based testing (Hypothesis): metamorphic differential, default join order vs generated .plan permutations / every SIPS metric / profile-guided auto-schedule",
+         "No output difference between the default join order and generated valid execution plans on recursive clauses (all versions), the 9 SIPS metrics, and auto-scheduling from a profile of the same program, over generated programs whose initial RAM demonstrably changes; a search, not a proof.",
+         "Interpreter back end; plans souffle rejects are discarded; one recorded finding (F21: auto-scheduler assertion) is excluded by signature and re-probed.", "4/C07"),
+ "C20": ("exploration", "property-based testing (Hypothesis): differential (with/without -p) plus reference count oracle (souffleprof rel table vs output file sizes)",
+         "Profiling changes no output relation and every relation souffleprof lists reports exactly the number of tuples in its output file, over generated programs with recursion and multi-rule relations at -j1/-j4; a search, not a proof.",
+         "Interpreter back end; relations removed by the optimiser are not listed and not compared; sizes < 1000 (souffleprof abbreviates larger counts).", "4/C20"),
+ "C23": ("exploration", "property-based testing (Hypothesis): validity predicate (subset / equality below the limit / at least k tuples) against the unlimited run of the same program",
+         "For generated recursive programs and limits k around the unlimited size s (k<<s, s-1, s, s+1, >s) the limited relation is a duplicate-free subset of the unlimited one, equal to it when s<k and of size >= k otherwise; a search, not a proof.",
+         "Interpreter back end; the unlimited result is souffle's own (its agreement with the reference evaluator is C01's subject).", "4/C23"),
 })
 
 def entry(pid):
